@@ -22,6 +22,7 @@ import traceback
 
 VERIF_DIR = os.path.dirname(os.path.dirname(os.path.abspath(__file__)))
 REPO = os.environ.get("VERIF_REPO", "/repo")
+OUT_DIR = os.environ.get("VERIF_OUT", VERIF_DIR)  # mutation runs write evidence/replays elsewhere
 
 
 def bind_repo():
@@ -180,7 +181,7 @@ def run_check(mod, tier, seed, only_case=None):
         else:
             new_sigs.append(sig)
     rc = 0
-    rdir = os.path.join(VERIF_DIR, "replays", prop)
+    rdir = os.path.join(OUT_DIR, "replays", prop)
     for i, sig in enumerate(new_sigs):
         v = by_sig[sig][0]
         os.makedirs(rdir, exist_ok=True)
@@ -232,8 +233,8 @@ def run_check(mod, tier, seed, only_case=None):
         "wall_s": round(time.time() - t0, 2),
         "violations": len(new_sigs),
     }
-    os.makedirs(os.path.join(VERIF_DIR, "evidence"), exist_ok=True)
-    with open(os.path.join(VERIF_DIR, "evidence", prop + ".json"), "w") as f:
+    os.makedirs(os.path.join(OUT_DIR, "evidence"), exist_ok=True)
+    with open(os.path.join(OUT_DIR, "evidence", prop + ".json"), "w") as f:
         json.dump(ev, f, indent=1, default=str)
     print(
         "%s tier=%s cases=%d transitions=%d states=%d outcomes=%d nontrivial=%d known=%d new=%d wall=%.1fs"
